@@ -16,6 +16,7 @@ import AbtemVerif.Lib.Linspace
 import AbtemVerif.Lib.GridInv
 import Mathlib.Analysis.Fourier.ZMod
 import AbtemVerif.Lib.DFT2
+import AbtemVerif.Props.C15
 
 namespace AbtemVerif.Props.C20
 open AbtemVerif.Scan AbtemVerif.Np AbtemVerif.Gen.Scan AbtemVerif.Gen.Grid AbtemVerif.Props.C17
@@ -344,7 +345,7 @@ theorem customscan_spec (c : CustomScan) :
 
 /-! ### an observation about the setters (documented in design/C20.md) -/
 
-/-- observation (outside the claims of C20, see design/C20.md): with `endpoint=True`, re-assigning the *same* end point
+/-- recorded finding (findings/C20.json; outside the literal claims of C20 — every state reached is self-consistent): with `endpoint=True`, re-assigning the *same* end point
 drops one scan position, because `_adjust_gpts` recomputes `⌈extent / sampling⌉` from the reported sampling `extent/(gpts−1)` -/
 theorem linescan_reassigning_end_drops_a_position :
     (lineInit (some (0, 0)) (some (3, 4)) 5 (some 10) none true).gpts = some 10 ∧
@@ -405,6 +406,21 @@ theorem probe_position_is_shift_partial (n m : ℕ) [NeZero n] [NeZero m] (Φ : 
     obtain ⟨k, l⟩ := kl
     exact (probe_shift_2d n m Φ p q k l).symm
   rw [this, (zmodPair2 n m).inv_left]
+
+open AbtemVerif.DFT ZMod in
+/-- **Tied to the code's kernel** (`BaseScan._evaluate_kernel` → `fft_shift_kernel`): with the *generated* phase
+`shiftPhase` of abtem/core/fft.py evaluated at the `fftfreq` frequencies of an `n × m` grid (C15:
+`cexp_shiftPhase_eq_stdAddChar`) and a scan position of `(a, b)` whole pixels, multiplying the 2-D spectrum of the origin
+probe by the kernel and transforming back gives the origin probe shifted periodically by `(a, b)`. -/
+theorem probe_at_scan_position_is_shifted_probe_partial (n m : ℕ) [NeZero n] [NeZero m] (Φ : ZMod n × ZMod m → ℂ) (a b : ℤ) :
+    (zmodPair2 n m).Finv (fun kl => AbtemVerif.Props.C15.shiftKernel (AbtemVerif.Props.C15.unitFreq n kl.1)
+        (AbtemVerif.Props.C15.unitFreq m kl.2) (a : ℝ) (b : ℝ) * (zmodPair2 n m).F Φ kl)
+      = fun r => Φ (r.1 - (a : ZMod n), r.2 - (b : ZMod m)) := by
+  rw [← probe_position_is_shift_partial n m Φ (a : ZMod n) (b : ZMod m)]
+  congr 1
+  funext kl
+  unfold AbtemVerif.Props.C15.shiftKernel
+  rw [AbtemVerif.Props.C15.cexp_shiftPhase_eq_stdAddChar n a kl.1, AbtemVerif.Props.C15.cexp_shiftPhase_eq_stdAddChar m b kl.2]
 
 /-- the ramp has modulus one, so the probe's norm does not depend on the position -/
 theorem shift_kernel_unit_modulus (N : ℕ) [NeZero N] (x : ZMod N) : ‖(ZMod.stdAddChar x : ℂ)‖ = 1 :=
